@@ -719,6 +719,13 @@ fn check_c08(cases: &[Case], results: &[Option<RunResult>]) -> Vec<Violation> {
             v.push(viol(i, "references are not 1..n in document order", format!("refs {:?} for {} links", refs, links.len()), known));
             continue;
         }
+        // the list is one block: no blank line inside it (only the text's final newline follows)
+        if let Some(k) = lines[p..].iter().position(|l| l.is_empty()) {
+            if p + k + 1 != lines.len() {
+                v.push(viol(i, "the footnote list is not one block at the end of the output", format!("blank line {} lines into the list: {:?}", k, &lines[p..]), known));
+                continue;
+            }
+        }
         // the list: unwrap hard-wrapped lines
         let list: String = lines[p..].concat();
         let mut exp = String::new();
@@ -1606,42 +1613,7 @@ pub fn c03_known(dom: &[DNode]) -> Option<&'static str> {
                 k = Some("img_alt_without_src");
             }
         }
-        // the colspan defect recorded for C05 also loses text: a spanning cell over columns that
-        // get no width of their own (no single-column cell with text in them) is skipped
-        if n.is("table") && k.is_none() {
-            fn rows_of<'a>(n: &'a DNode, rows: &mut Vec<&'a DNode>) {
-                for x in n.kids() {
-                    if x.is("tr") {
-                        rows.push(x);
-                    } else if x.is("thead") || x.is("tbody") {
-                        rows_of(x, rows);
-                    }
-                }
-            }
-            let mut trs = Vec::new();
-            rows_of(n, &mut trs);
-            let mut has_span_text = false;
-            let mut single: std::collections::HashSet<usize> = std::collections::HashSet::new();
-            let mut ncols = 0usize;
-            for tr in &trs {
-                let mut c = 0usize;
-                for cell in tr.kids().iter().filter(|x| x.is("td") || x.is("th")) {
-                    let span = cell.attr("colspan").and_then(|x| x.parse::<usize>().ok()).unwrap_or(1).max(1).min(1000);
-                    let txt = vis_count(cell) > 0;
-                    if span > 1 && txt {
-                        has_span_text = true;
-                    }
-                    if span == 1 && txt {
-                        single.insert(c);
-                    }
-                    c += span;
-                }
-                ncols = ncols.max(c);
-            }
-            if has_span_text && (0..ncols).any(|c| !single.contains(&c)) {
-                k = Some("zero_width_column_under_colspan");
-            }
-        }
+        let _ = n;
     });
     k
 }
@@ -1701,7 +1673,8 @@ fn check_c03(cases: &[Case], results: &[Option<RunResult>]) -> Vec<Violation> {
             a == b
         };
         if !ok {
-            v.push(viol(i, "document text is not preserved", format!("visible {:?} output {:?}", visn.iter().take(60).collect::<String>(), out.iter().take(60).collect::<String>()), c03_known(&dom)));
+            let known = c03_known(&dom).or(if has_table && colspan_zero_class(&dom, c.spec.width) { Some("zero_width_column_under_colspan") } else { None });
+            v.push(viol(i, "document text is not preserved", format!("visible {:?} output {:?}", visn.iter().take(60).collect::<String>(), out.iter().take(60).collect::<String>()), known));
         }
     }
     v
@@ -1818,7 +1791,7 @@ fn check_model_c03(i: usize, c: &Case, r: &RunResult, mo: &Outcome, labels: &Vec
     if ok {
         None
     } else {
-        Some(viol(i, "provenance of the model's output: a document character lost, duplicated or reordered", format!("expected {} labelled characters, output has {}", expected.len(), got.len()), c03_known(&dom)))
+        Some(viol(i, "provenance of the model's output: a document character lost, duplicated or reordered", format!("expected {} labelled characters, output has {}", expected.len(), got.len()), c03_known(&dom).or(if colspan_zero_class(&dom, c.spec.width) { Some("zero_width_column_under_colspan") } else { None })))
     }
 }
 fn nontrivial_c03(_c: &Case, r: &RunResult) -> bool {
